@@ -2,7 +2,7 @@ SPECIFICATION TSpec
 CONSTANTS
   MaxMem = 100
   PruneN = 50
-  MaxChunks = 0
+  MaxChunks = 1000000
   MaxToks = 0
   Roles = {}
   WinVals = {}
